@@ -56,6 +56,7 @@ type Ctx struct {
 	Only       int64 // when >= 0 run only the case with this sequence number (replay)
 
 	seq      int64
+	bulkNT   int64
 	curDesc  string
 	skip     map[int64]bool
 	cell     []byte
@@ -158,6 +159,13 @@ func (c *Ctx) NonTrivialKey(key string) {
 	}
 }
 
+// AddNonTrivial adds n cases that are distinct and non-trivial by construction
+// (bulk sweeps over a numeric range, where a hash set would not fit in memory).
+func (c *Ctx) AddNonTrivial(n int64) { c.bulkNT += n }
+
+// AddEvals adjusts the evaluation count for drivers that run many inputs per Begin.
+func (c *Ctx) AddEvals(n int64) { c.res.Evals += n }
+
 // Ops counts calls into the real code (the transitions of the explored space).
 func (c *Ctx) Ops(n int)                  { c.res.Ops += int64(n) }
 func (c *Ctx) Outcome(class string)       { c.res.Outcomes[class]++ }
@@ -253,7 +261,7 @@ func PlencFrame(stack []byte) string {
 }
 
 func (c *Ctx) flush() {
-	c.res.NonTrivial = int64(len(c.nt))
+	c.res.NonTrivial = int64(len(c.nt)) + c.bulkNT
 	c.res.States = int64(len(c.all))
 	for _, v := range c.viols {
 		c.res.Viols = append(c.res.Viols, v)
@@ -673,6 +681,14 @@ func writeEvidence(p *Prop, a *Agg, tier string, wall float64, nviol int, known 
 	}
 	for k, v := range a.Counters {
 		cov[k] = v
+	}
+	if _, ok := a.Counters["states"]; ok {
+		if _, ok := a.Counters["transitions"]; !ok {
+			cov["transitions"] = a.Ops
+		}
+		if _, ok := a.Counters["traces_validated_against_impl"]; !ok {
+			cov["traces_validated_against_impl"] = a.Evals
+		}
 	}
 	if a.Expired {
 		cov["cap"] = "internal deadline reached; the run stopped at the last completed shard unit and is NOT exhaustive: " + strings.Join(a.Notes, "; ")
